@@ -3,6 +3,7 @@ from lib.facts import direct_place, const_int, origins, place_fields, norm, noph
 from lib import tables
 from .sampling import Sampling
 
+INLINE = True      # crate-local helpers the rules do not know by name are inlined into their callers (lib/inline.py)
 EXPLANATION = (
     "R04.1 the `while` condition of the sampling loop is extracted from MIR as a decision DAG over atoms that the code "
     "touches only through comparisons (path enumeration with correlated branches over the header region, no values "
